@@ -16,6 +16,7 @@ ops (one history = everything since the last `reset`):
   reset-bottom <hex|absent> | coldread <total|general> | loadbottom | bottom-dump  (.DIR.bottom behind the board cache)
   reset-dir <hex|absent> | stale-file <name28> | recommend <name28> <1|2|3> <mtime> | delete-article <aidhex>
     | editpost <name28> | crosspost <name28> | dir-dump                            (request layer on one board's .DIR)
+  reset-pw <hex|absent> | pw <update|passwd|email> <uid> <hex> | pwq <whole|passwd|level> <uid>   (.PASSWDS accessors of cmbbs)
 Mutating ops answer `<result> <state>` with state = `absent` or `<length>:<fnv1a-64 of the bytes>`.
 -/
 
@@ -25,6 +26,7 @@ structure St where
   brd : FS := FS.absent                     -- BBSHOME/.BRD (callers layer)
   bottom : Bottom := ⟨FS.absent, 0, true⟩   -- one board's .DIR.bottom and its cached count
   dirf : FS := FS.absent                     -- one board's .DIR (request layer)
+  pw : FS := FS.absent                       -- BBSHOME/.PASSWDS
 
 def fnv (bs : List Nat) : UInt64 :=
   bs.foldl (fun h b => (h ^^^ b.toUInt64) * 1099511628211) 14695981039346656037
@@ -160,6 +162,39 @@ def stepC05 (st : St) (ws : List String) : St × String :=
         ({ st with brd := fs }, s!"{showOut out} {showState fs}")
     | _, _ => (st, "bad-op")
   | ["brd-dump"] => (st, if st.brd.present then toHex st.brd.bytes else "absent")
+  -- .PASSWDS accessors of cmbbs
+  | ["reset-pw", h] =>
+    match (if h = "absent" then some FS.absent else (parseHex h).map (fun b => ⟨true, b⟩)) with
+    | some fs => ({ st with pw := fs }, "ok")
+    | none => (st, "bad-op")
+  | ["pw", what, u, h] =>
+    match parseIntIn u (-2147483648) 2147483647, parseHex h with
+    | some uid, some bs =>
+      let spec : Option (Nat × Nat) :=
+        if what = "update" then some (0, Gen.RecFile.packedUserecRaw)
+        else if what = "passwd" then some (Gen.RecFile.pwOffPasswdHash, Gen.RecFile.pwLenPasswdHash)
+        else if what = "email" then some (Gen.RecFile.pwOffEmail, Gen.RecFile.pwLenEmail)
+        else none
+      match spec with
+      | some (off, len) =>
+        if bs.length ≠ len then (st, "bad-op")
+        else
+          let (fs, out) := passwdUpdate st.pw uid off bs
+          ({ st with pw := fs }, s!"{showOut out} {showState fs}")
+      | none => (st, "bad-op")
+    | _, _ => (st, "bad-op")
+  | ["pwq", what, u] =>
+    match parseIntIn u (-2147483648) 2147483647 with
+    | some uid =>
+      let spec : Option (Nat × Nat) :=
+        if what = "whole" then some (0, Gen.RecFile.packedUserecRaw)
+        else if what = "passwd" then some (Gen.RecFile.pwOffPasswdHash, Gen.RecFile.pwLenPasswdHash)
+        else if what = "level" then some (Gen.RecFile.pwOffUserLevel, Gen.RecFile.pwLenUserLevel)
+        else none
+      match spec with
+      | some (off, len) => (st, showOut (passwdQuery st.pw uid off len))
+      | none => (st, "bad-op")
+    | none => (st, "bad-op")
   -- request layer: name / id → record, confirmed, then modified or delete-marked
   | ["reset-dir", h] =>
     match (if h = "absent" then some FS.absent else (parseHex h).map (fun b => ⟨true, b⟩)) with
